@@ -23,9 +23,26 @@ fn main() {
         let ok = asmtable::run();
         std::process::exit(if ok { 0 } else { 1 });
     }
-    if args.len() >= 3 && args[1] == "step" {
+    if args.len() >= 3 && (args[1] == "step" || args[1] == "step-child") {
         let txt = std::fs::read_to_string(&args[2]).expect("witness file");
         match step::from_json(&txt) {
+            Ok(w) if w.engine != step::Engine::Interp && args[1] == "step" => {
+                // compiled engines: a trap or a wild access kills the process, so the run happens in a child
+                let out = std::process::Command::new(std::env::current_exe().unwrap()).args(["step-child", &args[2]]).output().expect("spawn");
+                let txt = String::from_utf8_lossy(&out.stdout).to_string();
+                let lines: Vec<&str> = txt.lines().collect();
+                if out.status.code().is_some() {
+                    println!("{}", lines.last().copied().unwrap_or("NOT-REPLAYABLE no output"));
+                } else {
+                    let expect = lines.iter().rev().find(|l| l.starts_with("EXPECT-")).copied().unwrap_or("EXPECT-UNKNOWN");
+                    let run = lines.iter().rev().find(|l| l.starts_with("RUN ")).copied().unwrap_or("RUN ?");
+                    match expect {
+                        "EXPECT-ERR" => println!("NOT-REPRODUCED the real {:?} engine trapped / crashed ({}) where the ISA prescribes an error", w.engine, run),
+                        "EXPECT-OK" => println!("REPRODUCED the ISA prescribes normal continuation, the real {:?} engine trapped / crashed the process during {} (status {:?})", w.engine, run, out.status),
+                        _ => println!("NOT-REPLAYABLE the real {:?} engine died during {} and the witness involves the stack (its address is only known after a run)", w.engine, run),
+                    }
+                }
+            }
             Ok(w) => println!("{}", step::replay(&w)),
             Err(e) => { println!("NOT-REPLAYABLE bad witness file: {}", e); std::process::exit(2); }
         }
